@@ -16,9 +16,12 @@ Notation "m ;;; f" := (bind m (fun _ => f)) (at level 61, right associativity).
 Definition after_parse (h : header Id) (ul : list (member Id)) (tail : bytes) : M unit :=
   sender_is_active <- apply_update rnd (mkMember (h_src h) (h_src_inc h) Alive) true ;;
   if negb sender_is_active then
+    f0 <- get ;;
+    let already_undead := conn_eqb (conn f0) Undead in
     when (message_eqb id_eqb (h_msg h) TurnUndead) (handle_self_update rnd 0 Down) ;;;
     f <- get ;;
-    when (notify_down_members (cfg f)) (send_message rnd (h_src h) TurnUndead)
+    let pointless := already_undead && message_eqb id_eqb (h_msg h) TurnUndead in
+    when (notify_down_members (cfg f) && negb pointless) (send_message rnd (h_src h) TurnUndead)
   else
     apply_many rnd ul true ;;;
     cres <- attempt (handle_custom_broadcasts tail (Some (h_src h))) ;;
@@ -73,7 +76,8 @@ Proof.
   intros AU NT. unfold after_parse, bind at 1. rewrite AU. cbn [negb].
   assert (E : message_eqb id_eqb (h_msg h) TurnUndead = false).
   { destruct (h_msg h); cbn; auto. contradiction. }
-  rewrite E. unfold when at 1. unfold bind at 1, ret at 1. unfold bind at 1, get at 1. reflexivity.
+  unfold bind at 1, get at 1. rewrite E. unfold when at 1. unfold bind at 1, ret at 1.
+  unfold bind at 1, get at 1. rewrite andb_false_r. cbn [negb]. rewrite andb_true_r. reflexivity.
 Qed.
 
 End Discard.
